@@ -667,6 +667,15 @@ theorem C16_rect_metric_exact (lo hi a b : Pt) (hab : a ≠ b) :
         push_cast; rw [← htd]; nlinarith
       exact_mod_cast this
 
+/-- the vertex test of the rectangle metric (T0-generated from the trait implementation the
+iterator calls) is membership in the closed rectangle, for every rectangle including inverted ones -/
+theorem C16_rect_vertex_metric_is_spec (lo hi p : Pt) :
+    rect_metric_point_inside lo hi p = true ↔ InRect lo hi p := by
+  unfold rect_metric_point_inside rect_is_empty rect_is_point_inside InRect
+  simp only [FL.gt, FL.lt, FL.ge, FL.le, Bool.and_eq_true, Bool.not_eq_true', Bool.or_eq_false_iff,
+    decide_eq_true_eq, decide_eq_false_iff_not]
+  omega
+
 /-- non-vacuity / regression: the edge of fix F29 (through two corners of the rectangle, scaled to
 integers) is inside; an edge passing the rectangle outside of a corner is not -/
 example : rect_is_edge_inside ⟨1, 1⟩ ⟨3, 3⟩ ⟨0, 4⟩ ⟨4, 0⟩ = true ∧ rect_is_edge_inside ⟨1, 1⟩ ⟨3, 3⟩ ⟨0, 5⟩ ⟨5, 2⟩ = false ∧
